@@ -364,16 +364,15 @@ def is_adiabat(P, F, e):
         if n.get("k") == "MemberExpr" and n.get("n") in ("potential_mantle_temperature", "thermal_expansion_coefficient", "specific_heat") \
                 and "world" in norm.render(P, n):
             return {"potential_mantle_temperature": Tp, "thermal_expansion_coefficient": al, "specific_heat": cp}[n["n"]]
-        if n.get("k") == "DeclRefExpr" and n.get("n") == "gravity_norm":
-            return g
         return None
     v = norm.Sym(P, F, inline_locals=False, hook=hook)(e)
-    free = [s for s in v.free_symbols if s not in (Tp, al, cp, g)]
-    if len(free) != 1:
+    # two further quantities: the gravity magnitude (a parameter of the model function) and the depth; the formula is
+    # symmetric in them, so they need not be told apart by name
+    free = [s for s in v.free_symbols if s not in (Tp, al, cp)]
+    if len(free) != 2:
         return False
-    D = free[0]
     try:
-        return sp.simplify(v - Tp * sp.exp(al * g * D / cp)) == 0
+        return sp.simplify(v - Tp * sp.exp(al * free[0] * free[1] / cp)) == 0
     except Exception:
         return False
 
@@ -844,8 +843,9 @@ def tag_registry(P, rep, rule="TAG.unique"):
         good = rv.get("k") == "DeclRefExpr" and rv.get("r") in loopvars
         good = good and astq.is_ref_to(pushes[0]["c"][0]["c"][0], vec_k) and astq.is_ref_to(pushes[0]["c"][1], str_k)
         import sympy as sp
-        r = norm.render(P, after[0]["c"][0], nocast=True).replace(" ", "")
-        good = good and r in ("(vector.size()-1)", "vector.size()-1")
+        r = sc(after[0]["c"][0])
+        szc = astq.member_call(P, r["c"][0], "size") if r.get("k") == "BinaryOperator" and r.get("op") == "-" else None
+        good = good and bool(szc) and astq.is_ref_to(szc[0], vec_k) and sc(r["c"][1]).get("v") == 1
     if good:
         rep.ok(rule, "add_vector_unique: returns the matching index, else appends the argument and returns size()-1", F.loc, F.qn)
     else:
